@@ -3,7 +3,7 @@ CONSTANTS
   MKind = "vec"
   MEty = "u64"
   Prefixes <- PrefBases
-  OpNames = {"push", "pop", "clear", "clone", "insert", "remove", "set", "swap", "resize", "get"}
+  OpNames = {"push", "pop", "clear", "clone", "insert", "remove", "set", "swap", "resize", "get", "iter"}
   MaxOps = 2
   NumSel <- NumSel_none
 SPECIFICATION GenSpec
